@@ -70,6 +70,7 @@ func propC01(w *World, r *Report) {
 	RunSizeAgree(w, r, nil)
 	RunMapdet(w, e, r, "mapdet", fns)
 	r.Floor("mapdet", 20)
+	RunMapdetControls(r)
 	for _, a := range boundsAssumptions {
 		r.Assumes(a)
 	}
